@@ -269,10 +269,13 @@ def r4_od_sibling(ctx, F):
     od = CB(F, 'OD')
     ctx.touched(od.b)
     pb, po = event_profile(F, bfs), event_profile(F, od)
-    ctx.check(pb == po, rule, 'same-events-as-bfs', od.b,
+    # (kinds of events, not their syntactic multiplicity: one shared `discoveries.insert` for all arms is the
+    # same behaviour as one insert per arm)
+    kinds_b, kinds_o = set(k for k, n in pb.items() if n), set(k for k, n in po.items() if n)
+    ctx.check(kinds_b == kinds_o, rule, 'same-events-as-bfs', od.b,
               good='on-demand check_block performs the same model/visited/discovery events as BFS (%d kinds)' % len(pb),
               bad='on_demand::check_block differs from bfs::check_block in its events: only-BFS %s, only-OD %s: '
-                  'run-to-completion no longer behaves like BFS' % (dict(pb - po), dict(po - pb)))
+                  'run-to-completion no longer behaves like BFS' % (sorted(kinds_b - kinds_o), sorted(kinds_o - kinds_b)))
     # same enqueue end
     eb = sorted(c.short.split('::')[-1] for c in bfs.enq)
     eo = sorted(c.short.split('::')[-1] for c in od.enq)
